@@ -958,6 +958,10 @@ impl DiskIO {
         let block = metadata_block(&encoded)?;
         self.write_sectors_sync(FEOX_METADATA_BLOCK, &block)?;
         self.write_sectors_sync(FEOX_METADATA_BACKUP_BLOCK, &block)?;
+        // The signature must be durable before the first journal or record write is
+        // issued: un-synced writes may reach the device in any order, and a journal
+        // block without metadata is a file that no longer opens.
+        self.flush()?;
         *metadata = next;
         Ok(())
     }
